@@ -181,6 +181,11 @@ EXPORT errno_t _wcsnatcmp_s_chk(const wchar_t *dest, rsize_t dmax,
         errno_t rc;
 
         d1 = (wchar_t *)malloc(2 * destsz);
+        if (unlikely(!d1)) {
+            invoke_safe_str_constraint_handler("wcsnatcmp_s: out of memory",
+                                               (void *)dest, ENOMEM);
+            return RCNEGATE(ENOMEM);
+        }
         rc = wcsfc_s(d1, dmax * 2, (wchar_t * restrict) dest, &l1);
         if (rc != EOK) {
             free(d1);
@@ -188,6 +193,12 @@ EXPORT errno_t _wcsnatcmp_s_chk(const wchar_t *dest, rsize_t dmax,
         }
 
         d2 = (wchar_t *)malloc(2 * srcsz);
+        if (unlikely(!d2)) {
+            free(d1);
+            invoke_safe_str_constraint_handler("wcsnatcmp_s: out of memory",
+                                               (void *)dest, ENOMEM);
+            return RCNEGATE(ENOMEM);
+        }
         rc = wcsfc_s(d2, smax * 2, (wchar_t * restrict) src, &l2);
         if (rc != EOK) {
             free(d1);
